@@ -113,7 +113,8 @@ CHECKS = {
         text="The real CollectionReader.StartRead and EtcdOp (watchers, event pool) run over fakeetcd; for every scenario the catalog writes are placed at every decision point among the reader's etcd calls and all schedules within the deviation bound are executed; at quiescence the recorded StartReadCollection / AddPartition / AddDropped* calls are compared with the catalog model.",
         note="Bounds: <= 4 catalog writes per scenario, <= 1 further deviation (2 thorough), two databases. Duplicate-notification handling by the real channel manager is exercised in the C04 family (drop:announced-twice). fakeetcd models Get/prefix/Watch-with-prev-kv semantics; thorough conformance against embedded etcd is a separate part.",
         parts=[part("start", "core", "reader", "TestVerifC13Start", shards=(12, 16), budget=(150, 900), gomaxprocs=1),
-               part("lookup", "core", "reader", "TestVerifC13Lookup", shards=(4, 8), budget=(120, 600))],
+               part("lookup", "core", "reader", "TestVerifC13Lookup", shards=(4, 8), budget=(120, 600)),
+               part("duplicates", "core", "reader", "TestVerifC13Duplicates", shards=(12, 16), budget=(150, 900), gomaxprocs=1)],
     ),
     "C10": dict(
         level="model_checking", engine="seq",
